@@ -269,18 +269,13 @@ class MultipartBodyStructure(BodyStructure):
         self.parts = parts
 
     @property
-    def _parts(self) -> Sequence[BodyStructure]:
-        # The grammar requires at least one part.
-        return self.parts or [BodyStructure.empty()]
-
-    @property
     def _value(self) -> List:
-        return List([_Concatenated(self._parts), String.build(self.subtype)])
+        return List([_Concatenated(self.parts), String.build(self.subtype)])
 
     @property
     def extended(self) -> List:
         """The body structure attributes with extension data."""
-        parts = [part.extended for part in self._parts]
+        parts = [part.extended for part in self.parts]
         return List([_Concatenated(parts), String.build(self.subtype),
                      _ParamsList(self.content_type_params),
                      _Disposition(self.content_disposition),
